@@ -38,6 +38,11 @@ CORPUS = os.path.join(lib.VERIF, 'corpus', 'C13')
 CACHE = os.path.join(lib.CACHE, 'c13')
 UPSTREAM_SCHEMAS = ['issues.esdl', 'cards.esdl', 'insert.esdl', 'updates.esdl', 'volatility.esdl']
 NPROC = 8
+# VERIF_C13_SCALE scales the number of generated cases (used when self-testing against scratch trees)
+try:
+    SCALE = float(os.environ.get('VERIF_C13_SCALE', '1'))
+except ValueError:
+    SCALE = 1.0
 
 CODES = {1: 'missing-from-entry', 2: 'invalid-reference', 3: 'ambiguous-table', 4: 'no-such-column',
          5: 'ambiguous-column', 6: 'cte-not-in-scope', 7: 'table-shadowed-by-cte', 8: 'dml-target-is-cte',
@@ -110,18 +115,18 @@ def gen_cases(tier, spec):
     for c in corpus_cases():
         cases.append({'line': c, 'origin': 'corpus', 'feats': []})
     # generated statements over the harness schema
-    n_gen = 2600 if thorough else 300
+    n_gen = int((1500 if thorough else 220) * SCALE)
     for i in range(n_gen):
         txt, feats, npar = G.gen_statement(rnd)
         mode = 'n' if i % 3 else 'j'
         cases.append({'line': enc_case('g1', mode, txt), 'origin': 'generated', 'feats': feats})
     # server-compiler slice (constant extraction -> extra parameters, QueryUnit descriptors)
-    n_srv = 500 if thorough else 50
+    n_srv = int((300 if thorough else 40) * SCALE)
     for i in range(n_srv):
         txt, feats, npar = G.gen_statement(rnd, maxdepth=rnd.choice([2, 3, 3, 4]))
         cases.append({'line': enc_case('g1', 's', txt), 'origin': 'generated-server', 'feats': feats})
     # malformed / edge stream
-    n_bad = 200 if thorough else 30
+    n_bad = int((120 if thorough else 24) * SCALE)
     for i in range(n_bad):
         txt, feats, npar = G.gen_statement(rnd, malformed=True)
         cases.append({'line': enc_case('g1', 'n', txt), 'origin': 'malformed', 'feats': feats})
@@ -129,8 +134,8 @@ def gen_cases(tier, spec):
     have = {k + '.esdl' for k in spec['schemas'] if k != 'g1'}
     seeds = G.upstream_seeds(lib.REPO, have) if have else []
     rnd.shuffle(seeds)
-    n_seed = 2400 if thorough else 180
-    n_rec = 1600 if thorough else 120
+    n_seed = int((1200 if thorough else 130) * SCALE)
+    n_rec = int((800 if thorough else 90) * SCALE)
     for s in seeds[:n_seed]:
         cases.append({'line': enc_case(s[0][:-5], rnd.choice('nnj'), s[3]), 'origin': 'upstream-seed',
                       'feats': ['seed:' + s[1]]})
@@ -392,7 +397,7 @@ def run(tier):
     t0 = time.time()
     impl = run_impl(lines, specpath)
     t_impl = time.time() - t0
-    known = kf_ids() | {x for x in os.environ.get('C13_DEV_ASSUME_KNOWN', '').split(',') if x}
+    known = kf_ids()
 
     # ---- the extracted validator on every emitted statement
     idx_ok = [i for i, r in enumerate(impl) if r.get('st') == 'ok' and 'term' in r]
@@ -509,7 +514,7 @@ def run(tier):
     seeds_probe = ('12345', '7') if thorough else ('12345',)
     cand = [i for i, r in enumerate(impl) if r.get('st') == 'ok']
     rnd = lib.rng('C13probe')
-    nprobe = len(cand) if thorough else min(len(cand), 110)
+    nprobe = min(len(cand), int((700 if thorough else 80) * SCALE))
     probe = sorted(rnd.sample(cand, nprobe)) if cand else []
     d_idx = sorted(set(need_d) | set(probe))
     t0 = time.time()
